@@ -51,6 +51,19 @@ def one_case(rng, tier):
                 s_['svc'] = [rng.choice([0, 0, 0.25, 0.75, 1.5]) for _ in range(3)]
     if rng.random() < 0.2:
         case['t0'] = 1.7e9          # a clock that reads like time.time(), not like a stopwatch
+    ma = [s_['id'] for s_ in prog['nodes'] if s_['op'] == 'map_async']
+    if ma and rng.random() < 0.4:
+        # the node is stopped and started again from outside while elements are on their way (every stop is followed by a
+        # start): what it delivers, and in which order, must not depend on that
+        for _ in range(rng.choice([1, 1, 2])):
+            p = rng.choice(prods)
+            pos = rng.randrange(len(p) + 1)
+            nid = rng.choice(ma)
+            # (a stop that no start follows would legitimately leave elements waiting: later input may never reach the node,
+            # held up by the back-pressure of what is waiting in front of it)
+            calls = rng.choice([['stop', 'start'], ['stop', 'start'], ['start'], ['stop', 'stop', 'start'], ['start', 'start']])
+            for j, c in enumerate(calls):
+                p.insert(pos + j, [rng.choice([0, 0, -1, -2, 0.25, 0.5, 1.0]), '!call', [nid, c], 0])
     return case
 
 
